@@ -57,7 +57,10 @@ func (c13) Gen(seed uint64, tier string) *Scenario {
 	if r.Bool(0.25) {
 		m.Stmts = append(m.Stmts, r.PickS("SELECT id, RAND() + RAND(1, 6) FROM a WHERE id > 0;", "SELECT id, RAND(), RAND(1, 100) FROM a;", // only in the select list: a random filter would make the number of workers of the next operator random
 
-			"SELECT id, NOW(), UUID() FROM a WHERE id > 0;", "SELECT id, REGEXP_MATCH(s, '^[a-' || STRING(id % 5) || ']'), DATETIME_FORMAT(NOW(), '%Y') FROM a;"))
+			"SELECT id, NOW(), UUID() FROM a WHERE id > 0;", "SELECT id, REGEXP_MATCH(s, '^[a-' || STRING(id % 5) || ']'), DATETIME_FORMAT(NOW(), '%Y') FROM a;",
+			"SELECT id, JSON_VALUE('k' || STRING(id % 7), '{\"k0\":1,\"k1\":{\"x\":2},\"k2\":[3]}'), JSON_OBJECT(id, s) FROM a;",
+			"SELECT id, DATETIME_FORMAT(@d, '%Y-%m-' || STRING(id % 9)), DATETIME(STRING(2000 + id % 30) || '-01-02 03:04:05'), ADD_DAY(@d, id) FROM a;",
+			"SELECT id, REGEXP_REPLACE(s, '[' || STRING(id % 3) || 'a-c]', '_'), REGEXP_FIND(s, '[a-z]+' || STRING(id % 4) || '?'), s LIKE '%' || STRING(id % 3) || '%' FROM a;"))
 	}
 	renderQuery(sc, m)
 	if r.Bool(0.2) {
